@@ -31,6 +31,9 @@ type G struct {
 	pending int // items promised by nItems and not yet counted in Items
 	// Plain biases toward attribute-free items (cheap, large batches).
 	Plain bool
+	// Wide makes a batch of many resources and scopes with one item each (so
+	// that the dictionaries of resource / scope level columns grow).
+	Wide bool
 	// Bare forbids attributes, events, links and exemplars altogether, so that
 	// the main record has no id column and no related record exists.
 	Bare bool
@@ -210,6 +213,11 @@ func (g *G) resource(r pcommon.Resource) {
 }
 
 func (g *G) scope(s pcommon.InstrumentationScope) {
+	if g.Wide {
+		s.SetName(g.str())
+		s.SetVersion(g.str())
+		return
+	}
 	// a family of near-identical scopes: the same base with one field perturbed
 	switch g.w(2, 2, 2, 2, 2, 2, 2, 3) {
 	case 0:
@@ -240,13 +248,25 @@ func (g *G) scope(s pcommon.InstrumentationScope) {
 }
 
 func (g *G) schemaURL() string {
+	if g.Wide {
+		if u, ok := g.uniq(); ok {
+			return "https://s/" + u
+		}
+	}
 	return []string{"", "", "https://s/1", "https://s/2"}[g.d(4)]
 }
 
-func (g *G) nContainers() int { return g.w(1, 5, 3, 2, 1) }
+func (g *G) nContainers() int {
+	if g.Wide {
+		return 6 + g.d(10)
+	}
+	return g.w(1, 5, 3, 2, 1)
+}
 func (g *G) nItems() int {
 	n := 0
-	if g.MaxItems <= 0 {
+	if g.Wide {
+		n = 1
+	} else if g.MaxItems <= 0 {
 		n = g.w(1, 3, 3, 2, 2, 1, 1)
 	} else {
 		n = g.d(g.MaxItems + 1)
